@@ -8,6 +8,9 @@ use crate::{Cache, DefaultEvictCallback, DefaultHashBuilder, KeyRef, PutResult};
 use core::borrow::Borrow;
 use core::hash::{BuildHasher, Hash};
 
+#[cfg(feature = "verif-hooks")]
+mod verif;
+
 /// `AdaptiveCacheBuilder` is used to help build a [`AdaptiveCache`] with custom configuration.
 ///
 /// [`AdaptiveCache`]: struct.AdaptiveCache.html
